@@ -16,6 +16,7 @@ CONSTANTS
   MaxTables, MaxDepth,
   OpenKinds, DeclKindsOn, \* kinds of scoped / plain declarations to generate
   Forms,        \* subset of {"abs", "caret", "rel"}: name forms beyond the single segment
+  FieldKinds,   \* subset of {"Field", "IndexField", "BankField"} (with FieldOn)
   ScopeOn, FieldOn, MethodFlags, \* Scope directives; Field lists; set of method flag bytes ({} = no methods)
   StmtKinds,    \* subset of {"call0","call1","call2","nest","nestfirst","ret","store","ref","if","op","while"}
   MaxStmts,
@@ -112,10 +113,20 @@ OpenMethod == /\ Room(1) /\ Depth < MaxDepth
 OpenScope == /\ ScopeOn /\ Room(0) /\ Depth < MaxDepth
              /\ \E f \in ScopeForms, w \in W : Step([k |-> "scope", f |-> f, w |-> w], 1, 0)
              /\ UNCHANGED nstm /\ lastClosed' = ""
+\* field units visible from the current scope by the search rule (index / data / bank registers)
+UnitsVis == {o.p : o \in {x \in st.ns : x.kind = "NamedField" /\ SearchUp(st.ns, Cur(st), Last(x.p)) = x.p}}
+N1(p) == F(FALSE, 0, <<Last(p)>>)
+FieldToks(w, els) ==
+  (IF "Field" \in FieldKinds THEN {[k |-> "field", kind |-> "Field", f |-> N1(r), w |-> w, flags |-> 33, els |-> els] : r \in Regions} ELSE {})
+  \cup (IF "IndexField" \in FieldKinds
+        THEN {[k |-> "field", kind |-> "IndexField", f |-> N1(x[1]), g |-> N1(x[2]), w |-> w, flags |-> 66, els |-> els]
+               : x \in {y \in UnitsVis \X UnitsVis : y[1] # y[2]}} ELSE {})
+  \cup (IF "BankField" \in FieldKinds
+        THEN {[k |-> "field", kind |-> "BankField", f |-> N1(r), g |-> N1(b), v |-> <<Cn("word", 300)>>, w |-> w, flags |-> 17, els |-> els]
+               : r \in Regions, b \in UnitsVis} ELSE {})
 DeclFieldList == /\ FieldOn /\ Room(2)
-                 /\ \E r \in Regions, w \in W : \E els \in FieldEls(Fresh[nfresh + 1], Fresh[nfresh + 2]) :
-                      Step([k |-> "field", f |-> F(FALSE, 0, <<Last(r)>>), w |-> w, flags |-> 33, els |-> els], 1,
-                           Cardinality({i \in 1..Len(els) : els[i].e = "unit"}))
+                 /\ \E w \in W : \E els \in FieldEls(Fresh[nfresh + 1], Fresh[nfresh + 2]) : \E t \in FieldToks(w, els) :
+                      Step(t, 1, Cardinality({i \in 1..Len(els) : els[i].e = "unit"}))
                  /\ UNCHANGED nstm /\ lastClosed' = ""
 Statement == /\ InMethod(st) /\ nprod < MaxProd /\ nstm < MaxStmts
              /\ \/ \E t \in Stmts : Step(t, 1, 0)
@@ -149,7 +160,7 @@ LoaderSound == TreeShaped(st) /\ StackSound(st) /\ CallsSound(st) /\ st = Load(t
 \* the abstract parser design builds exactly what the loader says, for every complete program
 \* (programs that use a construct on which the pinned design is KNOWN to deviate are exempt: they can
 \* only be generated once the finding is closed, and then AmlNsImpl has to follow the repaired code)
-ImplDeviates == {"D1", "D1b", "D2", "D2c", "D8"}
+ImplDeviates == {"D1", "D1b", "D2", "D2c", "D10", "D11"}
 Expected == [ns |-> st.ns, calls |-> [i \in 1..Len(st.calls) |-> [tab |-> st.calls[i].tab, p |-> st.calls[i].p, n |-> Len(st.calls[i].a)]]]
 RefinesAll == IsComplete => I!Parse(toks, Bug) = Expected
 Refines == (IsComplete /\ st.trig \cap ImplDeviates = {}) => I!Parse(toks, Bug) = Expected
